@@ -30,6 +30,8 @@ GLOBAL = [
  "`GrevmExecutor::execute_incarnation` calling `evm.finalize()` only on the Ok path (stale journal accounts leak into the worker's next incarnation) - found four times already, do not use it",
  "moving / reordering `beneficiary.invalidate()`, `mark_mv_estimate()` and `rewind_validation_to()` relative to each other inside `validate()`",
  "changing where `validate()` draws its logical timestamp",
+ "deciding `write_new_locations` in `execute_task` by write-set size or by a subset test with swapped operands - found four times already, do not use it",
+ "`ParallelStateView::db_basic` inserting the fetched account unconditionally",
  "removing or weakening the SeqCst fences in `WaitSlot` or in `validate()`",
 ]
 
